@@ -127,6 +127,12 @@ Definition parse (op : list tok) : cmd :=
       | _ => CmdBad end
     else if name =? "sticky" then
       match args with [TN c; TN sid] => CmdSticky (znat c) (zN sid) | _ => CmdBad end
+    else if name =? "connect" then
+      match args with [TN h; TN w] => CmdOp (OConnect (znat h) (zN w)) | _ => CmdBad end
+    else if name =? "select_conn" then
+      match args with [TN c; TN w] => CmdOp (OSelectConn (znat c) (zN w)) | _ => CmdBad end
+    else if name =? "sticky_conn" then
+      match args with [TN c; TN sid; TN w] => CmdOp (OStickyConn (znat c) (zN sid) (zN w)) | _ => CmdBad end
     else if name =? "dump" then CmdDump
     else CmdBad
   | _ => CmdBad
@@ -136,6 +142,18 @@ Definition optN_tok (r : option N) : tok := match r with Some n => tN n | None =
 
 (** what the driver prints for an operation: computed from the state before
     and the state [apply_op] produces *)
+(** pick, code, did a back-off window start, tries and failures of the pick afterwards *)
+Definition conn_toks (s s' : state) (pk : option nat) (code : N) : list tok :=
+  match pk with
+  | None => [TN (-2); tN code; TN 0; TN 0; TN 0]
+  | Some h =>
+    let b := hget (s_heap s) h in
+    let b' := hget (s_heap s') h in
+    [ tnat h; tN code;
+      tn_bool (N.eqb code 2 && can_try (b_retry b) (s_now s));
+      tN (r_tries (b_retry b')); tN (b_failures b') ]
+  end.
+
 Definition observe (s : state) (o : op) (s' : state) : list tok :=
   match o with
   | OAdd c _ _ _ _ _ =>
@@ -160,6 +178,14 @@ Definition observe (s : state) (o : op) (s' : state) : list tok :=
     let cands := candidates s (c_list (cget s c)) in
     [tnat (List.length cands)] ++ map tnat cands
       ++ pick_toks (c_lb (cget s c)) (snd (select s c key)) ++ view s' c
+  | OConnect h w =>
+    let b := hget (s_heap s) h in
+    let code := snd (try_connect (s_now s) w b) in
+    conn_toks s s' (Some h) code
+  | OSelectConn c w =>
+    let '(_, pk, code) := backend_from_cluster s c w in conn_toks s s' pk code
+  | OStickyConn c sid w =>
+    let '(_, pk, code) := backend_from_sticky s c sid w in conn_toks s s' pk code
   | _ => []
   end.
 
